@@ -14,11 +14,15 @@ then updating any node tree that renders the template under the old data (whenev
 yields a node tree that renders it under the new data — so, forgetting creation times, exactly the tree a fresh
 creation builds (`update_refines`), after any number of updates (`updates_refine`).
 
+When the whole data tree is `true` the generated code re-evaluates every binding and hands lists the tree `undefined` (they are then
+matched by position whatever their keys); this case is the instance of the theorem in which `cov` holds of everything.
+
 `Law.child` is where finding D67 came from: for an object list the position → field-name map can change, and the
 real code handed `tree[new field name]` to a node that showed another field's item.  The model (and the repaired
 code) tell such a node `true`.
 -/
 import GE.Model.TagSem
+import GE.Thm.C06Rlm
 
 namespace GE.TagSem
 
@@ -46,8 +50,21 @@ structure Law (s : Sem E V T) (cov : T → V → V → Prop) : Prop where
   same_eq : ∀ a b, s.same a b = true → a = b
   guard : ∀ e D0 D1 sc0 sc1 U su, cov U D0 D1 → CovL cov su sc0 sc1 → s.dirty e U su = false → s.eval e D0 sc0 = s.eval e D1 sc1
   tree : ∀ e D0 D1 sc0 sc1 U su, cov U D0 D1 → CovL cov su sc0 sc1 → cov (s.treeOf e U su) (s.eval e D0 sc0) (s.eval e D1 sc1)
-  child : ∀ L l0 l1, cov L l0 l1 → ∀ (i : Nat) a0 a1 x, (s.items l0)[i]? = some (a0, x) → (s.items l1)[i]? = some (a1, x) →
-    cov (s.child L x) a0 a1
+  /-- the subtree at an index covers the change of the item that has this index (position in an array, field name in an object) -/
+  child : ∀ L l0 l1, cov L l0 l1 → ∀ a0 a1 x, (a0, x) ∈ s.items l0 → (a1, x) ∈ s.items l1 → cov (s.child L x) a0 a1
+  /-- a tree that is `undefined` covers no more than `none` does … -/
+  none_cov : ∀ t a b, s.isNone t = true → cov t a b → cov s.none a b
+  /-- … and when it is the tree of a list, every position keeps its item (with the usual reading of `cov` the list is unchanged; when the
+  whole data tree is `true` — every guard fires, the generated code hands lists `undefined` — `cov` holds of everything) -/
+  none_items : ∀ L l0 l1, s.isNone L = true → cov L l0 l1 → ∀ (i : Nat) a0 a1 x,
+    (s.items l0)[i]? = some (a0, x) → (s.items l1)[i]? = some (a1, x) → cov s.none a0 a1
+  /-- an index whose subtree is absent or leaves the key field alone existed before, with the same key -/
+  key_kept : ∀ key L l0 l1, cov L l0 l1 → ∀ a1 x, (a1, x) ∈ s.items l1 →
+    (subMark s key (s.child L x) = .none ∨ subMark s key (s.child L x) = .sub false) →
+    ∃ a0, (a0, x) ∈ s.items l0 ∧ s.rawKey key a0 = s.rawKey key a1
+  /-- a tree none of whose children is `true` or marks the key field leaves indexes and keys as they were -/
+  keys_stable : ∀ key L l0 l1, cov L l0 l1 → s.isAll L = false → s.isNone L = false → s.anyMarked key L = false →
+    (s.items l0).map (fun p => (s.rawKey key p.1, p.2)) = (s.items l1).map (fun p => (s.rawKey key p.1, p.2))
 
 /-! ## creation renders -/
 
@@ -63,6 +80,7 @@ theorem create_renders (s : Sem E V T) (now : Nat) (D : V) (sc : List V) : ∀ t
   | .block ch => createL_renders s now D sc ch
   | .cond bs => ⟨rfl, createBr_renders s now D sc bs _ 1⟩
   | .loop _ body => mkItems_renders now _ (fun a x => createL_renders s now D (sc ++ [a, x]) body) _
+  | .loopK _ _ body => ⟨rfl, mkItems_renders now _ (fun a x => createL_renders s now D (sc ++ [a, x]) body) _⟩
 theorem createL_renders (s : Sem E V T) (now : Nat) (D : V) (sc : List V) : ∀ ts : Tpls E, rendersL s D sc ts (createL s now D sc ts)
   | .nil => trivial
   | .cons t r => ⟨create_renders s now D sc t, createL_renders s now D sc r⟩
@@ -95,18 +113,18 @@ theorem updAttrs_eq (s : Sem E V T) {cov : T → V → V → Prop} (law : Law s 
     | true => simp
     | false => simp [law.guard a.2 D0 D1 sc0 sc1 U su hU hsu hd]
 
-theorem zipItems_renders (s : Sem E V T) {cov : T → V → V → Prop} (law : Law s cov) (now : Nat) (L : T)
+theorem zipItems_renders (s : Sem E V T) {cov : T → V → V → Prop} (law : Law s cov) (now : Nat) (treeAt : V → T)
     (upd : V → V → T → T → Nodes V → Nodes V) (mk : V → V → Nodes V) (P0 P1 : V → V → Nodes V → Prop)
     (hupd : ∀ a0 x0 a1 x1 ti tx och, cov ti a0 a1 → cov tx x0 x1 → P0 a0 x0 och → P1 a1 x1 (upd a1 x1 ti tx och))
     (hmk : ∀ a x, P1 a x (mk a x)) :
     ∀ (its1 its0 : List (V × V)) (oitems : Items V),
-      (∀ (i : Nat) a0 a1 x, its0[i]? = some (a0, x) → its1[i]? = some (a1, x) → cov (s.child L x) a0 a1) →
-      rendersItems P0 its0 oitems → rendersItems P1 its1 (zipItems s now L upd mk its1 oitems)
+      (∀ (i : Nat) a0 a1 x, its0[i]? = some (a0, x) → its1[i]? = some (a1, x) → cov (treeAt x) a0 a1) →
+      rendersItems P0 its0 oitems → rendersItems P1 its1 (zipItems s now treeAt upd mk its1 oitems)
   | [], _, _, _, _ => by simp [zipItems, rendersItems]
   | (a1, x1) :: r1, its0, .nil, _, h0 => by
     simp only [zipItems]
     refine ⟨rfl, hmk a1 x1, ?_⟩
-    exact zipItems_renders s law now L upd mk P0 P1 hupd hmk r1 [] .nil (fun i a0 a1 x h => by simp at h) trivial
+    exact zipItems_renders s law now treeAt upd mk P0 P1 hupd hmk r1 [] .nil (fun i a0 a1 x h => by simp at h) trivial
   | (a1, x1) :: r1, [], .cons b ox och orest, _, h0 => by simp [rendersItems] at h0
   | (a1, x1) :: r1, (a0, x0) :: r0, .cons b ox och orest, hpos, h0 => by
     obtain ⟨hox, hp0, hrest⟩ := h0
@@ -122,8 +140,170 @@ theorem zipItems_renders (s : Sem E V T) {cov : T → V → V → Prop} (law : L
       | false =>
         simp only [Bool.not_false, if_true]
         exact hupd a0 x0 a1 x1 _ _ och (law.cov_all _ _) (law.cov_all _ _) hp0
-    · exact zipItems_renders s law now L upd mk P0 P1 hupd hmk r1 r0 orest
+    · exact zipItems_renders s law now treeAt upd mk P0 P1 hupd hmk r1 r0 orest
         (fun i a0' a1' x h0' h1' => hpos (i + 1) a0' a1' x (by simpa using h0') (by simpa using h1')) hrest
+
+/-! ### keyed lists -/
+
+theorem getItem_renders {P : V → V → Nodes V → Prop} : ∀ (its : List (V × V)) (items : Items V) (j : Nat) a x,
+    rendersItems P its items → its[j]? = some (a, x) → ∃ b ch, getItem items j = some (b, x, ch) ∧ P a x ch
+  | [], _, _, _, _, _, h => by simp at h
+  | _ :: _, .nil, _, _, _, h0, _ => by simp [rendersItems] at h0
+  | (a', x') :: r, .cons b ix ch rest, 0, a, x, h0, h => by
+    obtain ⟨h1, h2, _⟩ := h0
+    simp only [List.getElem?_cons_zero, Option.some.injEq, Prod.mk.injEq] at h
+    obtain ⟨rfl, rfl⟩ := h
+    exact ⟨b, ch, by simp [getItem, h1], h2⟩
+  | (a', x') :: r, .cons b ix ch rest, j + 1, a, x, h0, h => by
+    simp only [List.getElem?_cons_succ] at h
+    simpa [getItem] using getItem_renders r rest j a x h0.2.2 h
+
+theorem keyedItems_renders (s : Sem E V T) {cov : T → V → V → Prop} (law : Law s cov) (now : Nat) (ouk : List String) (oitems : Items V)
+    (tr : String → V → T) (upd : V → V → T → T → Nodes V → Nodes V) (mk : V → V → Nodes V) (P0 P1 : V → V → Nodes V → Prop)
+    (its0 : List (V × V))
+    (hupd : ∀ a0 x0 a1 x1 ti tx och, cov ti a0 a1 → cov tx x0 x1 → P0 a0 x0 och → P1 a1 x1 (upd a1 x1 ti tx och))
+    (hmk : ∀ a x, P1 a x (mk a x)) (h0 : rendersItems P0 its0 oitems) (hlen : ouk.length = its0.length) :
+    ∀ (its : List (V × V)) (ks : List String), its.length = ks.length →
+      (∀ (i : Nat) a1 x1 k, its[i]? = some (a1, x1) → ks[i]? = some k → ∀ a0 x0, ouk.idxOf k < ouk.length →
+        its0[ouk.idxOf k]? = some (a0, x0) → cov (tr k x1) a0 a1) →
+      rendersItems P1 its (keyedItems s now ouk oitems tr upd mk its ks)
+  | [], [], _, _ => by simp [keyedItems, rendersItems]
+  | [], _ :: _, h, _ => by simp at h
+  | _ :: _, [], h, _ => by simp at h
+  | (a1, x1) :: r, k :: ks, hl, htr => by
+    have hrest := keyedItems_renders s law now ouk oitems tr upd mk P0 P1 its0 hupd hmk h0 hlen r ks (by simpa using hl)
+      (fun i a1' x1' k' h1 h2 => htr (i + 1) a1' x1' k' (by simpa using h1) (by simpa using h2))
+    simp only [keyedItems]
+    cases hlk : lookupOld ouk oitems k with
+    | none => exact ⟨rfl, hmk a1 x1, hrest⟩
+    | some old =>
+      obtain ⟨b, ox, och⟩ := old
+      simp only [lookupOld] at hlk
+      by_cases hj : ouk.idxOf k < ouk.length
+      · simp only [hj, if_true] at hlk
+        have hsome : its0[ouk.idxOf k]? = some its0[ouk.idxOf k] := List.getElem?_eq_getElem (by omega)
+        obtain ⟨b', ch', hg, hp⟩ := getItem_renders its0 oitems _ _ _ h0 hsome
+        rw [hlk] at hg
+        simp only [Option.some.injEq, Prod.mk.injEq] at hg
+        obtain ⟨rfl, hox, rfl⟩ := hg
+        refine ⟨rfl, ?_, hrest⟩
+        have hcov := htr 0 a1 x1 k (by simp) (by simp) _ _ hj hsome
+        refine hupd _ _ a1 x1 _ _ och hcov ?_ hp
+        cases hs : s.same x1 ox with
+        | true =>
+          have := law.same_eq _ _ hs
+          simp only [if_true]
+          rw [← hox, this]; exact law.cov_none _
+        | false => simp only [Bool.false_eq_true, if_false]; exact law.cov_all _ _
+      · simp only [hj, if_false] at hlk
+        cases hlk
+
+/-- the tree handed to a reused node covers the change from the item that node showed to the new item -/
+theorem keyed_renders (s : Sem E V T) {cov : T → V → V → Prop} (law : Law s cov) (now : Nat) (key : String) (L : T) (l0 l1 : V)
+    (hL : cov L l0 l1) (hnone : s.isNone L = false) (oraw : List String) (oitems : Items V)
+    (hraw : oraw = (s.items l0).map (fun p => s.rawKey key p.1))
+    (upd : V → V → T → T → Nodes V → Nodes V) (mk : V → V → Nodes V) (P0 P1 : V → V → Nodes V → Prop)
+    (hupd : ∀ a0 x0 a1 x1 ti tx och, cov ti a0 a1 → cov tx x0 x1 → P0 a0 x0 och → P1 a1 x1 (upd a1 x1 ti tx och))
+    (hmk : ∀ a x, P1 a x (mk a x)) (h0 : rendersItems P0 (s.items l0) oitems) :
+    rendersItems P1 (s.items l1)
+      (keyedItems s now (GE.Rlm.uniq oraw) oitems
+        (itemTree s key L (s.anyMarked key L) (GE.Rlm.renamed oraw) (GE.Rlm.renamed ((s.items l1).map fun p => s.rawKey key p.1))) upd mk
+        (s.items l1) (GE.Rlm.uniq ((s.items l1).map fun p => s.rawKey key p.1))) := by
+  let rk : V × V → String := fun p => s.rawKey key p.1
+  have hnraw : ∀ (i : Nat) (a1 x1 : V), (s.items l1)[i]? = some (a1, x1) → ((s.items l1).map rk)[i]? = some (s.rawKey key a1) := by
+    intro i a1 x1 h; simp [rk, h]
+  have horaw : ∀ (j : Nat) (a0 x0 : V), (s.items l0)[j]? = some (a0, x0) → oraw[j]? = some (s.rawKey key a0) := by
+    intro j a0 x0 h; rw [hraw]; simp [h]
+  refine keyedItems_renders s law now _ oitems _ upd mk P0 P1 (s.items l0) hupd hmk h0
+    (by rw [GE.Rlm.uniq_length, hraw]; simp) _ _ (by rw [GE.Rlm.uniq_length]; simp) ?_
+  intro i a1 x1 k hi hk a0 x0 hj hold
+  have hm1 : (a1, x1) ∈ s.items l1 := List.mem_of_getElem? hi
+  have hm0 : (a0, x0) ∈ s.items l0 := List.mem_of_getElem? hold
+  -- the unique key of the reused old position is `k`
+  have hkj : (GE.Rlm.uniq oraw)[(GE.Rlm.uniq oraw).idxOf k]? = some k := by
+    rw [List.getElem?_eq_getElem hj]; exact congrArg some (List.getElem_idxOf hj)
+  simp only [itemTree]
+  by_cases hall : s.isAll L = true
+  · simp only [hall, if_true]; exact law.cov_all _ _
+  · simp only [hall, Bool.false_eq_true, if_false]
+    have hall' : s.isAll L = false := by simpa using hall
+    by_cases hneed : s.anyMarked key L = true
+    · simp only [hneed, if_true]
+      by_cases hren : k ∈ GE.Rlm.renamed oraw ∨ k ∈ GE.Rlm.renamed ((s.items l1).map rk)
+      · simp only [rk] at hren
+        simp only [hren, if_true]; exact law.cov_all _ _
+      · have hren' : ¬ (k ∈ GE.Rlm.renamed oraw ∨ k ∈ GE.Rlm.renamed ((s.items l1).map fun p => s.rawKey key p.1)) := hren
+        simp only [hren', if_false]
+        simp only [not_or] at hren
+        -- the reused node is the one of the same index, provided the subtree leaves the key alone
+        have hsame : (subMark s key (s.child L x1) = .none ∨ subMark s key (s.child L x1) = .sub false) → (a0, x0) ∈ s.items l0 ∧ x0 = x1 := by
+          intro hm
+          obtain ⟨a0', hm0', hkey⟩ := law.key_kept key L l0 l1 hL a1 x1 hm1 hm
+          obtain ⟨p, hp⟩ := List.mem_iff_getElem?.mp hm0'
+          -- new side: `k` is the raw key of position i, which occurs once
+          have hnk := GE.Rlm.uniq_at _ i k hk
+          rcases hnk with hnk | ⟨hnk, _⟩
+          · exact absurd hnk hren.2
+          · rw [hnraw i a1 x1 hi] at hnk
+            have hk1 : s.rawKey key a1 = k := Option.some.inj hnk
+            -- old side: the reused position has raw key `k`, which occurs once
+            rcases GE.Rlm.uniq_at _ _ k hkj with hok | ⟨hok, hoc⟩
+            · exact absurd hok hren.1
+            · have hpk : oraw[p]? = some k := by rw [horaw p a0' x1 hp, hkey, hk1]
+              have hpj : p = (GE.Rlm.uniq oraw).idxOf k := by
+                rcases Nat.lt_trichotomy p ((GE.Rlm.uniq oraw).idxOf k) with h | h | h
+                · have := GE.Rlm.two_le_count_of_two_positions h hpk hok; omega
+                · exact h
+                · have := GE.Rlm.two_le_count_of_two_positions h hok hpk; omega
+              rw [← hpj, hp] at hold
+              simp only [Option.some.injEq, Prod.mk.injEq] at hold
+              exact ⟨hm0, hold.2.symm⟩
+        cases hsm : subMark s key (s.child L x1) with
+        | none =>
+          obtain ⟨hm0', hx⟩ := hsame (Or.inl hsm)
+          subst hx
+          have hc := law.child L l0 l1 hL a0 a1 x0 hm0' hm1
+          have hn : s.isNone (s.child L x0) = true := by
+            simp only [subMark] at hsm
+            by_cases h : s.isNone (s.child L x0) = true
+            · exact h
+            · simp only [h, Bool.false_eq_true, if_false] at hsm
+              split at hsm <;> cases hsm
+          exact law.none_cov _ _ _ hn hc
+        | all => exact law.cov_all _ _
+        | sub bm =>
+          cases bm with
+          | true => exact law.cov_all _ _
+          | false =>
+            obtain ⟨hm0', hx⟩ := hsame (Or.inr hsm)
+            subst hx
+            exact law.child L l0 l1 hL a0 a1 x0 hm0' hm1
+    · have hneed' : s.anyMarked key L = false := by simpa using hneed
+      simp only [hneed', Bool.false_eq_true, if_false]
+      -- nothing marked: keys and indexes are positionwise the same, so the reused node is the one of position i
+      have hst := law.keys_stable key L l0 l1 hL hall' hnone hneed'
+      have hraws : oraw = (s.items l1).map rk := by
+        rw [hraw]
+        have := congrArg (List.map Prod.fst) hst
+        simpa [rk, List.map_map, Function.comp_def] using this
+      have hk' : (GE.Rlm.uniq oraw)[i]? = some k := by rw [hraws]; exact hk
+      have hji : (GE.Rlm.uniq oraw).idxOf k = i := by
+        have hlt : i < (GE.Rlm.uniq oraw).length := by
+          by_cases h : i < (GE.Rlm.uniq oraw).length
+          · exact h
+          · rw [List.getElem?_eq_none (by omega)] at hk'; cases hk'
+        have hki : (GE.Rlm.uniq oraw)[i] = k := by
+          have h := List.getElem?_eq_getElem hlt
+          rw [hk'] at h
+          exact (Option.some.inj h).symm
+        rw [← hki]; exact (GE.Rlm.uniq_nodup oraw).idxOf_getElem i hlt
+      rw [hji] at hold
+      have hidx : x0 = x1 := by
+        have h1 := congrArg (fun l => l[i]?) hst
+        simp only [List.getElem?_map, hold, hi, Option.map_some, Option.some.injEq, Prod.mk.injEq] at h1
+        exact h1.2
+      subst hidx
+      exact law.child L l0 l1 hL a0 a1 x0 hm0 hm1
 
 mutual
 theorem update_renders (s : Sem E V T) {cov : T → V → V → Prop} (law : Law s cov) (now : Nat) (D0 D1 : V) (U : T) (hU : cov U D0 D1) :
@@ -153,24 +333,49 @@ theorem update_renders (s : Sem E V T) {cov : T → V → V → Prop} (law : Law
   | .loop l body, .forn b oitems, sc0, sc1, su, hsu, h => by
     simp only [update, renders]
     simp only [renders] at h
-    refine zipItems_renders s law now (s.treeOf l U su) _ _
+    refine zipItems_renders s law now (s.child (s.treeOf l U su)) _ _
       (fun a x nch => rendersL s D0 (sc0 ++ [a, x]) body nch) (fun a x nch => rendersL s D1 (sc1 ++ [a, x]) body nch)
       (fun a0 x0 a1 x1 ti tx och hti htx hp =>
         update_rendersL s law now D0 D1 U hU body och (sc0 ++ [a0, x0]) (sc1 ++ [a1, x1]) (su ++ [ti, tx])
           (CovL.append hsu ⟨hti, htx, trivial⟩) hp)
       (fun a x => createL_renders s now D1 (sc1 ++ [a, x]) body) _ _ oitems
-      (law.child _ _ _ (law.tree l D0 D1 sc0 sc1 U su hU hsu)) h
+      (fun i a0 a1 x h0 h1 => law.child _ _ _ (law.tree l D0 D1 sc0 sc1 U su hU hsu) a0 a1 x
+        (List.mem_of_getElem? h0) (List.mem_of_getElem? h1)) h
+  | .loopK l key body, .fornK b oraw oitems, sc0, sc1, su, hsu, h => by
+    obtain ⟨hraw, hits⟩ := h
+    have hL := law.tree l D0 D1 sc0 sc1 U su hU hsu
+    have hupd : ∀ a0 x0 a1 x1 ti tx och, cov ti a0 a1 → cov tx x0 x1 → rendersL s D0 (sc0 ++ [a0, x0]) body och →
+        rendersL s D1 (sc1 ++ [a1, x1]) body (updateL s now D1 (sc1 ++ [a1, x1]) U (su ++ [ti, tx]) body och) :=
+      fun a0 x0 a1 x1 ti tx och hti htx hp =>
+        update_rendersL s law now D0 D1 U hU body och (sc0 ++ [a0, x0]) (sc1 ++ [a1, x1]) (su ++ [ti, tx])
+          (CovL.append hsu ⟨hti, htx, trivial⟩) hp
+    have hmk : ∀ a x, rendersL s D1 (sc1 ++ [a, x]) body (createL s now D1 (sc1 ++ [a, x]) body) :=
+      fun a x => createL_renders s now D1 (sc1 ++ [a, x]) body
+    simp only [update]
+    split
+    · -- the list's tree is `undefined`: the list is unchanged, positions are matched one by one
+      rename_i hnone
+      refine ⟨rfl, ?_⟩
+      exact zipItems_renders s law now (fun _ => s.none) _ _
+        (fun a x nch => rendersL s D0 (sc0 ++ [a, x]) body nch) (fun a x nch => rendersL s D1 (sc1 ++ [a, x]) body nch)
+        hupd hmk _ _ oitems (fun i a0 a1 x h0 h1 => law.none_items _ _ _ hnone hL i a0 a1 x h0 h1) hits
+    · rename_i hnone
+      refine ⟨rfl, ?_⟩
+      exact keyed_renders s law now key (s.treeOf l U su) _ _ hL (by simpa using hnone) oraw oitems hraw _ _
+        (fun a x nch => rendersL s D0 (sc0 ++ [a, x]) body nch) (fun a x nch => rendersL s D1 (sc1 ++ [a, x]) body nch) hupd hmk hits
   -- a node of another kind does not render the template
   | .text _, .elem .., _, _, _, _, h | .text _, .virt .., _, _, _, _, h | .text _, .ifn .., _, _, _, _, h
-  | .text _, .forn .., _, _, _, _, h => by simp [renders] at h
+  | .text _, .forn .., _, _, _, _, h | .text _, .fornK .., _, _, _, _, h => by simp [renders] at h
   | .elem .., .text .., _, _, _, _, h | .elem .., .virt .., _, _, _, _, h | .elem .., .ifn .., _, _, _, _, h
-  | .elem .., .forn .., _, _, _, _, h => by simp [renders] at h
+  | .elem .., .forn .., _, _, _, _, h | .elem .., .fornK .., _, _, _, _, h => by simp [renders] at h
   | .block _, .text .., _, _, _, _, h | .block _, .elem .., _, _, _, _, h | .block _, .ifn .., _, _, _, _, h
-  | .block _, .forn .., _, _, _, _, h => by simp [renders] at h
+  | .block _, .forn .., _, _, _, _, h | .block _, .fornK .., _, _, _, _, h => by simp [renders] at h
   | .cond _, .text .., _, _, _, _, h | .cond _, .elem .., _, _, _, _, h | .cond _, .virt .., _, _, _, _, h
-  | .cond _, .forn .., _, _, _, _, h => by simp [renders] at h
+  | .cond _, .forn .., _, _, _, _, h | .cond _, .fornK .., _, _, _, _, h => by simp [renders] at h
   | .loop .., .text .., _, _, _, _, h | .loop .., .elem .., _, _, _, _, h | .loop .., .virt .., _, _, _, _, h
-  | .loop .., .ifn .., _, _, _, _, h => by simp [renders] at h
+  | .loop .., .ifn .., _, _, _, _, h | .loop .., .fornK .., _, _, _, _, h => by simp [renders] at h
+  | .loopK .., .text .., _, _, _, _, h | .loopK .., .elem .., _, _, _, _, h | .loopK .., .virt .., _, _, _, _, h
+  | .loopK .., .ifn .., _, _, _, _, h | .loopK .., .forn .., _, _, _, _, h => by simp [renders] at h
 theorem update_rendersL (s : Sem E V T) {cov : T → V → V → Prop} (law : Law s cov) (now : Nat) (D0 D1 : V) (U : T) (hU : cov U D0 D1) :
     ∀ (ts : Tpls E) (ns : Nodes V) (sc0 sc1 : List V) (su : List T), CovL cov su sc0 sc1 →
       rendersL s D0 sc0 ts ns → rendersL s D1 sc1 ts (updateL s now D1 sc1 U su ts ns)
@@ -229,11 +434,22 @@ theorem renders_shape (s : Sem E V T) (D : V) : ∀ (t : Tpl E) (n : Node V) (sc
     simp only [renders] at h
     simp only [create, Node.shape]
     rw [rendersItems_shape (fun a x nch hp => rendersL_shape s D body nch (sc ++ [a, x]) hp) _ items h]
-  | .text _, .elem .., _, h | .text _, .virt .., _, h | .text _, .ifn .., _, h | .text _, .forn .., _, h => by simp [renders] at h
-  | .elem .., .text .., _, h | .elem .., .virt .., _, h | .elem .., .ifn .., _, h | .elem .., .forn .., _, h => by simp [renders] at h
-  | .block _, .text .., _, h | .block _, .elem .., _, h | .block _, .ifn .., _, h | .block _, .forn .., _, h => by simp [renders] at h
-  | .cond _, .text .., _, h | .cond _, .elem .., _, h | .cond _, .virt .., _, h | .cond _, .forn .., _, h => by simp [renders] at h
-  | .loop .., .text .., _, h | .loop .., .elem .., _, h | .loop .., .virt .., _, h | .loop .., .ifn .., _, h => by simp [renders] at h
+  | .loopK l key body, .fornK b raw items, sc, h => by
+    obtain ⟨h1, h2⟩ := h
+    simp only [create, Node.shape, h1]
+    rw [rendersItems_shape (fun a x nch hp => rendersL_shape s D body nch (sc ++ [a, x]) hp) _ items h2]
+  | .text _, .elem .., _, h | .text _, .virt .., _, h | .text _, .ifn .., _, h | .text _, .forn .., _, h
+  | .text _, .fornK .., _, h => by simp [renders] at h
+  | .elem .., .text .., _, h | .elem .., .virt .., _, h | .elem .., .ifn .., _, h | .elem .., .forn .., _, h
+  | .elem .., .fornK .., _, h => by simp [renders] at h
+  | .block _, .text .., _, h | .block _, .elem .., _, h | .block _, .ifn .., _, h | .block _, .forn .., _, h
+  | .block _, .fornK .., _, h => by simp [renders] at h
+  | .cond _, .text .., _, h | .cond _, .elem .., _, h | .cond _, .virt .., _, h | .cond _, .forn .., _, h
+  | .cond _, .fornK .., _, h => by simp [renders] at h
+  | .loop .., .text .., _, h | .loop .., .elem .., _, h | .loop .., .virt .., _, h | .loop .., .ifn .., _, h
+  | .loop .., .fornK .., _, h => by simp [renders] at h
+  | .loopK .., .text .., _, h | .loopK .., .elem .., _, h | .loopK .., .virt .., _, h | .loopK .., .ifn .., _, h
+  | .loopK .., .forn .., _, h => by simp [renders] at h
 theorem rendersL_shape (s : Sem E V T) (D : V) : ∀ (ts : Tpls E) (ns : Nodes V) (sc : List V), rendersL s D sc ts ns →
     ns.shape = (createL s 0 D sc ts).shape
   | .nil, .nil, _, _ => rfl
@@ -315,6 +531,11 @@ def toySem : Sem Bool Nat Bool where
   dirty := fun e U _ => e && U
   treeOf := fun e U _ => e && U
   child := fun L _ => L
+  rawKey := fun _ _ => ""
+  isAll := fun t => t
+  isNone := fun t => !t
+  keyMarks := fun _ t => t
+  anyMarked := fun _ t => t
 
 def toyCov (t : Bool) (a b : Nat) : Prop := t = true ∨ a = b
 
@@ -340,12 +561,39 @@ theorem toyLaw : Law toySem toyCov where
       · exact Or.inl (by simp [toySem, h])
       · exact Or.inr (by simp [toySem, h])
   child := by
-    intro L l0 l1 h i a0 a1 x h0 h1
+    intro L l0 l1 h a0 a1 x h0 h1
     rcases h with h | h
     · exact Or.inl h
     · subst h
+      simp only [toySem, List.mem_map, List.mem_range, Prod.mk.injEq] at h0 h1
+      obtain ⟨i, _, rfl, rfl⟩ := h0
+      obtain ⟨j, _, rfl, hj⟩ := h1
+      exact Or.inr hj.symm
+  none_cov := by
+    intro t a b ht h
+    rcases h with h | h
+    · simp [toySem, h] at ht
+    · exact Or.inr h
+  none_items := by
+    intro L l0 l1 ht h i a0 a1 x h0 h1
+    rcases h with h | h
+    · simp [toySem, h] at ht
+    · subst h
       rw [h0] at h1
       exact Or.inr (by cases h1; rfl)
+  key_kept := by
+    intro key L l0 l1 h a1 x hm hs
+    have hL : L = false := by
+      simp only [subMark, toySem] at hs
+      cases L with
+      | false => rfl
+      | true => simp at hs
+    rcases h with h | h
+    · simp [hL] at h
+    · exact ⟨a1, h ▸ hm, rfl⟩
+  keys_stable := by
+    intro key L l0 l1 _ h1 h2 _
+    cases L <;> simp [toySem] at h1 h2
 
 /-- `<view wx:if="{{d}}">{{d}}</view><block wx:for="{{d}}">x</block>`: 2 → 3 keeps the branch (its text is rewritten in place) and grows the list -/
 example :
